@@ -25,7 +25,7 @@ RULE = ("E1: (a,b) 10 codes x all option subsets of size <= 3 over 22 option ite
 ASSUMPTIONS = [
     "cbor2 / cryptography / filelock are the stand-ins of /verif/shims (OpenSSL libcrypto through ctypes), bound to RFC 3610, NIST GCM, "
     "RFC 8439, RFC 5869, RFC 8949 and RFC 8613 appendix C vectors at start-up; nothing is claimed about the real packages",
-    "a mutation that only changes the representation of the OSCORE option may be accepted if the result equals the original message",
+    "a mutation that only changes the representation of the OSCORE option (the k flag; an ID context dropped or given as empty) may be accepted if the result equals the original message",
     "group OSCORE is not covered",
 ]
 
@@ -220,6 +220,17 @@ def genuine_still_accepted(res, sv, genuine, orig, case, kind):
                               "oscore.py:unprotect", case, key="after:" + kind.split("%")[0]))
 
 
+def representation_only(case, kind):
+    """The manipulations that leave Partial IV, key ID and ID context *values* as they are and may therefore be accepted (with the
+    original message as the result): the k flag of the first option byte (an empty or implied key ID spelled either way), and an
+    ID context that is dropped from / present as empty in the option.  Everything else - announced lengths that do not fit, other
+    flag bits, any byte of a field - has to be refused."""
+    if kind in ("edit-kctx-dropped", "edit-kctx-empty"):
+        return True
+    flip = case.get("flip")
+    return kind.startswith("opt-flip") and flip is not None and list(flip)[:3] == ["option", 0, 3]
+
+
 def attempt(res, sv, data, orig, case, kind, strict=False, genuine=None):
     """Unprotect a manipulated datagram: must raise a protection error, or (representation-only change) give the original."""
     res.evaluations += 1
@@ -240,7 +251,7 @@ def attempt(res, sv, data, orig, case, kind, strict=False, genuine=None):
         res.violate(Violation("tamper-raises-other", "a protection error", core.exc_desc(e), core.site_of(e), case,
                               key="%s@%s" % (type(e).__name__, core.site_of(e))))
         return
-    if strict or original_fields(inner) != orig:
+    if strict or original_fields(inner) != orig or not representation_only(case, kind):
         res.violate(Violation("tampered-message-accepted", "protection error", {"got": core.jsonable(original_fields(inner))},
                               "oscore.py:unprotect", case, key="accepted:" + kind))
     else:
@@ -391,7 +402,7 @@ def tamper_response(res, cl, sv, rid_cl, rid_sv, base, full):
                 res.violate(Violation("tamper-raises-other", "a protection error", core.exc_desc(e), core.site_of(e), case,
                                       key="resp:%s@%s" % (type(e).__name__, core.site_of(e))))
                 return
-            if strict or original_fields(got) != orig:
+            if strict or original_fields(got) != orig or not representation_only(case, kind):
                 res.violate(Violation("tampered-message-accepted", "protection error", {"got": core.jsonable(original_fields(got))},
                                       "oscore.py:unprotect", case, key="accepted:resp-" + kind))
             else:
@@ -478,6 +489,38 @@ def echo_challenge(res, alg):
     res.outcomes.add(("echo", len(used)))
 
 
+def crash_binding(res, nreq, start):
+    """Response binding across a process death: a file-backed client context sends nreq requests, the answer to the last one is
+    recorded, the process dies and is started again; the recorded answer must not verify as the answer to the next request."""
+    from .c13_nonce import Run
+    res.evaluations += 1
+    case = {"family": "crash-binding", "requests": nreq, "chunk_start": start}
+    r = Run(start, 10000)
+    try:
+        for i in range(nreq):
+            outer, rid = r.ctx.protect(Message(code=codes.GET, uri_path=["old%d" % i]))
+        w, _ = wire(outer)
+        r.peer.recipient_replay_window.initialize_empty()
+        _, prid = r.peer.unprotect(w)
+        resp, _ = r.peer.protect(Message(code=codes.CONTENT, payload=b"answer to the old request"), request_id=prid)
+        rw, rdata = wire(resp)
+        r.die()
+        r.load()
+        outer2, rid2 = r.ctx.protect(Message(code=codes.GET, uri_path=["new"]))
+        try:
+            inner, _ = r.ctx.unprotect(Message.decode(rdata), rid2)
+            res.violate(Violation("response-binding", "a response recorded before the crash does not verify against a request made after it",
+                                  {"accepted": bytes(inner.payload)}, "oscore.py:FilesystemSecurityContext.post_seqnoincrease", case, key="bind-crash"))
+        except o.ProtectionInvalid:
+            res.signatures.add(("crash-binding", nreq, start))
+        res.traces += 1
+        res.outcomes.add(("crash-binding", "refused"))
+    except Exception as e:
+        res.violate(Violation("roundtrip-raises", "protect/unprotect succeed", core.exc_desc(e), core.site_of(e), case, key="crashbind:" + type(e).__name__))
+    finally:
+        r.close()
+
+
 SSNS = [0, 1, 255, 256, 65535, 65536, 2 ** 24, 2 ** 32, 2 ** 40 - 2]
 ALGS = ["AES-CCM-16-64-128", "AES-CCM-16-128-128", "AES-CCM-64-64-128", "A128GCM", "ChaCha20/Poly1305",
         # the rest of the AEAD algorithms the library registers (two configurations each in both tiers)
@@ -506,6 +549,9 @@ def job(arg):
         binding(res, True)
         for alg in ALGS:
             echo_challenge(res, alg)
+        for nreq in range(1, 13):
+            for start in (1, 10):
+                crash_binding(res, nreq, start)
         # every algorithm sees at least one complete tampering pass, also in the quick tier
         for alg in ALGS[1:]:
             maxid = o.algorithms[alg].iv_bytes - 6
@@ -556,6 +602,8 @@ def replay(case, scenario, seed):
         binding(res, case["own_piv"])
     elif fam == "echo-challenge":
         echo_challenge(res, case["alg"])
+    elif fam == "crash-binding":
+        crash_binding(res, case["requests"], case["chunk_start"])
     else:
         tamper(res, len(case["sid"]), len(case["rid"]), case["idc"], case["alg"], case["ssn"], True)
     return [v for v, n in res.violations.values()]
